@@ -1247,6 +1247,27 @@ func lemmaCreateThenMapQueue(data []byte, cap uint32) {
 //@   ensures  slice != nil ==> l.len == old(l.len) + (slice.writeIndex - slice.readIndex) && l.sliceList.len == old(l.sliceList.len) + 1 && l.sliceList.backSlice == slice && l.sliceList.writeSlice == slice
 //@   ensures  slice != nil && !slice.isFromShm ==> !l.isFromShm
 
+// moveToWithoutLock (receive path), variant @owed: every slice read from shared memory is either appended to
+// the reader's buffer (after the empty-slice test) or recycled, exactly once; nothing is appended twice or
+// dropped. Only this control-flow discipline is checked in the variant (the callees' data preconditions are
+// taken as given there; panic-freedom of this path is part of C13).
+//@ func (*pendingData).moveToWithoutLock
+//@   ghost var owed bool = false
+//@   at call? (*bufferManager).readBufferSlice#0 check[C09@owed] !owed
+//@   at call? (*bufferManager).readBufferSlice#0 ghost[C09@owed] owed := r1 == nil
+//@   at call? (*bufferManager).recycleBuffer#0 check[C09@owed] owed && a1 == slice
+//@   at call? (*bufferManager).recycleBuffer#0 ghost[C09@owed] owed := false
+//@   at call? (*bufferManager).recycleBuffer#1 check[C09@owed] owed && a1 == slice
+//@   at call? (*bufferManager).recycleBuffer#1 ghost[C09@owed] owed := false
+//@   at call? (*bufferManager).recycleBuffer#2 check[C09@owed] owed && a1 == slice
+//@   at call? (*bufferManager).recycleBuffer#2 ghost[C09@owed] owed := false
+//@   at call? (*linkedBuffer).appendBufferSlice#1 check[C09@owed] owed && a0 == toBuf && a1 == slice
+//@   at call? (*linkedBuffer).appendBufferSlice#1 ghost[C09@owed] owed := false
+//@   exit[C09@owed] !owed
+//@   loop 0 invariant[C09@owed] !owed
+//@   loop 1 invariant[C09@owed] !owed
+//@   modifies heap
+
 // Discard: drops exactly size bytes (after the refill), slice by slice
 //@ func (*linkedBuffer).Discard
 //@   requires bufOK(l) && l.len >= size
